@@ -358,6 +358,18 @@ func (in *Interp) tryMerge(fr *Frame, x *ssa.If, c *Term) bool {
 	if !ok {
 		return false
 	}
+	// both sides must be feasible, otherwise the branch is forced and the
+	// ordinary decision procedure handles it (speculating an infeasible side
+	// only produces junk)
+	if in.spec == 0 {
+		mv, mok := in.evalBool(c)
+		if !(mok && mv) && in.Solver.CheckWith(c) == Unsat {
+			return false
+		}
+		if !(mok && !mv) && in.Solver.CheckWith(Not(c)) == Unsat {
+			return false
+		}
+	}
 	// J must begin with phis or be reached without needing values (fine either way)
 	var phis []*ssa.Phi
 	for _, ins := range J.Instrs {
@@ -381,6 +393,7 @@ func (in *Interp) tryMerge(fr *Frame, x *ssa.If, c *Term) bool {
 		mark := len(in.trail)
 		level := in.Solver.Level()
 		pcLen := len(in.pc)
+		factLen := len(in.facts)
 		savedDefs := in.specDefs
 		in.specDefs = nil
 		savedBase := in.specBase
@@ -389,14 +402,23 @@ func (in *Interp) tryMerge(fr *Frame, x *ssa.If, c *Term) bool {
 		savedDepth := in.depth
 		in.spec++
 		startSteps := in.steps
+		savedModel, savedMemo := in.model, in.evalMemo
+		if v, ok := in.evalBool(guard); !ok || !v {
+			in.setModel(nil) // the witness model does not lie on this side
+		}
 		defer func() {
 			in.spec--
+			in.model, in.evalMemo = savedModel, savedMemo
 			res.defs = in.specDefs
 			in.specDefs = savedDefs
 			in.specBase = savedBase
 			in.undoTo(mark)
 			in.Solver.PopTo(level)
 			in.pc = in.pc[:pcLen]
+			for i := len(in.facts) - 1; i >= factLen; i-- {
+				delete(in.factMap, in.facts[i].k)
+			}
+			in.facts = in.facts[:factLen]
 			in.curFrame = savedFrame
 			in.depth = savedDepth
 			fr.block, fr.prev = B, fr.prev
